@@ -1279,3 +1279,21 @@ def inlined_func(tus, name, file=None, keep=()):
             nf = f
         _INLINED_CACHE[key] = nf
     return _INLINED_CACHE[key]
+
+
+def pure_function(g):
+    """no store through a pointer / into an array, no call, no static state: its value depends on its scalar arguments (and on what
+    its pointer arguments point to) only - an 'address arithmetic' or 'formula' helper"""
+    if g.body is None:
+        return False
+    for st in swalk(g.body):
+        if st.k in ("goto", "label", "omp"):
+            return False
+        if st.k == "decl" and st.var is not None and st.var.scope == "static":
+            return False
+    for st, x in all_exprs(g.body):
+        if x.k == "call":
+            return False
+        if x.k in ("asg", "incdec") and x.a[0].k != "var":
+            return False
+    return True
